@@ -486,7 +486,30 @@ func init() {
 		"internal/reflectlite.TypeOf": func(i *interpreter, fr *frame, a []value) value { return ext۰reflect۰TypeOf(fr, a) },
 		"errors.Is": func(i *interpreter, fr *frame, a []value) value {
 			x, y := a[0].(iface), a[1].(iface)
-			return x.t != nil && sameType(x.t, y.t) && !hasSym(x.v) && !hasSym(y.v) && equals(x.t, x.v, y.v)
+			for depth := 0; depth < 16 && x.t != nil; depth++ {
+				if sameType(x.t, y.t) && !hasSym(x.v) && !hasSym(y.v) && equals(x.t, x.v, y.v) {
+					return true
+				}
+				// follow the Unwrap() error chain of the real error value
+				sel := i.prog.MethodSets.MethodSet(x.t).Lookup(nil, "Unwrap")
+				if sel == nil {
+					break
+				}
+				sig, _ := sel.Type().(*types.Signature)
+				if sig == nil || sig.Results().Len() != 1 || !types.Identical(sig.Results().At(0).Type(), types.Universe.Lookup("error").Type()) {
+					break
+				}
+				fn := i.prog.MethodValue(sel)
+				if fn == nil {
+					break
+				}
+				r, ok := call(i, fr, token.NoPos, fn, []value{x.v}).(iface)
+				if !ok {
+					break
+				}
+				x = r
+			}
+			return false
 		},
 		"(*encoding/csv.Writer).Write": func(i *interpreter, fr *frame, a []value) value {
 			if !i.ps.csvModel {
